@@ -3769,6 +3769,12 @@ class _DiskCacheWrapper:
         self.reuse = reuse
 
         import diskcache
+        if cache_dir is not None:
+            # diskcache expands '~' and environment variables in the
+            # directory. Do the same before the directory is inspected,
+            # otherwise an existing cache in e.g. '~/cache' is not noticed.
+            import os
+            cache_dir = os.path.expandvars(os.path.expanduser(str(cache_dir)))
         if cache_dir is not None and Path(cache_dir).is_dir() and len(
                 list(Path(cache_dir).glob('*'))) > 0:
             if reuse:
